@@ -198,20 +198,20 @@ type Task struct {
 
 // Args is the argument tuple of one API call, in plain data.
 type Args struct {
-	Serial    uint32          `json:"serial"`
-	U32       uint32          `json:"u32,omitempty"`  // card number / index
-	U8        uint8           `json:"u8,omitempty"`   // door / profile / interval / interlock
-	U8b       uint8           `json:"u8b,omitempty"`  // delay
-	State     int             `json:"state,omitempty"`
-	Bool      bool            `json:"bool,omitempty"`
-	IPs       [3][]byte       `json:"ips,omitempty"`  // SetAddress: address, mask, gateway as net.IP bytes
-	AddrPort  string          `json:"addr,omitempty"` // SetListener: netip.AddrPort text, "" = zero value
-	Time      *Civil          `json:"time,omitempty"`
-	Card      *Card           `json:"card,omitempty"`
-	Formats   []int           `json:"formats,omitempty"`
-	Profile   *Profile        `json:"profile,omitempty"`
-	Task      *Task           `json:"task,omitempty"`
-	Passcodes []uint32        `json:"passcodes,omitempty"`
-	Readers   map[uint8]bool  `json:"readers,omitempty"`
-	NilMap    bool            `json:"nilmap,omitempty"` // Readers (ActivateKeypads) is a nil map
+	Serial    uint32         `json:"serial"`
+	U32       uint32         `json:"u32,omitempty"` // card number / index
+	U8        uint8          `json:"u8,omitempty"`  // door / profile / interval / interlock
+	U8b       uint8          `json:"u8b,omitempty"` // delay
+	State     int            `json:"state,omitempty"`
+	Bool      bool           `json:"bool,omitempty"`
+	IPs       [3][]byte      `json:"ips,omitempty"`  // SetAddress: address, mask, gateway as net.IP bytes
+	AddrPort  string         `json:"addr,omitempty"` // SetListener: netip.AddrPort text, "" = zero value
+	Time      *Civil         `json:"time,omitempty"`
+	Card      *Card          `json:"card,omitempty"`
+	Formats   []int          `json:"formats,omitempty"`
+	Profile   *Profile       `json:"profile,omitempty"`
+	Task      *Task          `json:"task,omitempty"`
+	Passcodes []uint32       `json:"passcodes,omitempty"`
+	Readers   map[uint8]bool `json:"readers,omitempty"`
+	NilMap    bool           `json:"nilmap,omitempty"` // Readers (ActivateKeypads) is a nil map
 }
